@@ -268,6 +268,28 @@ def r4_r5_aggregation(repo, rep, cls):
       for call in au.calls_in(n.ast):
         if isinstance(call.func, ast.Attribute) and call.func.attr == 'pivot_table':
           piv = (n, call)
+  # the labels of the aggregated table (dates) are what the outlier screening reports and what fit() then looks up in the
+  # date column of the screened data: a conversion of the key column applied to the aggregation's working copy only
+  # (to_datetime, astype, normalisation) makes the reported labels differ from the stored values, so nothing is removed
+  CONVERT = ('to_datetime', 'astype', 'to_numeric', 'to_period', 'to_timestamp', 'normalize', 'floor', 'ceil', 'round', 'strftime', 'map', 'apply', 'tz_localize', 'tz_convert')
+  for n_ in g.nodes:
+    if n_.kind != 'stmt' or not isinstance(n_.ast, ast.Assign):
+      continue
+    for t_ in n_.ast.targets:
+      if not (isinstance(t_, ast.Subscript) and not norm(t_.value).startswith('self.')):
+        continue
+      key_ = norm(rd.expand(n_, t_.slice)[0])
+      if key_ not in ('self._df_names.date', 'self._df_names.geo'):
+        continue
+      conv = [c_ for c_ in au.calls_in(n_.ast.value) if (c_.func.attr if isinstance(c_.func, ast.Attribute) else getattr(c_.func, 'id', '')) in CONVERT]
+      if not conv:
+        continue
+      same_elsewhere = any(isinstance(x_, ast.Call) and (x_.func.attr if isinstance(x_.func, ast.Attribute) else getattr(x_.func, 'id', '')) in CONVERT
+                           and 'self._data' in norm(x_) for m_ in cls.all_functions() if m_ is not f for x_ in ast.walk(m_.node))
+      rep.check3(None if same_elsewhere else False, 'R4/aggregation', 'the key columns of the aggregated table hold the values of the screened data', f.qualname, norm(n_.ast)[:120],
+                 'the %s column of the working copy is converted with `%s` before the aggregation: the labels of the aggregated table (which the screening reports) are no longer the values stored in self._data, so fit() looks the reported %s up in the unconverted column and removes nothing'
+                 % (key_.split('.')[-1], norm(conv[0])[:60], 'dates' if key_.endswith('date') else 'geos'), f.loc(n_.ast),
+                 why_open='the same kind of conversion is applied to self._data elsewhere in the class: whether both agree is not decided')
   if piv is None:
     # a two-way split by a Boolean key: groupby([... , data[group] == treatment]) puts every row that is not in the named
     # group into the other class -- rows of neither group (unassigned geos, NaN labels) are then counted as control /
